@@ -102,6 +102,16 @@ def fam_crash(rng):
     u1 = scn["users"]["u1"]
     # a probe after everything settled: a later submit must be refused once a worker died abruptly
     scn["users"]["u1"] = [op for op in u1 if op[0] not in ("shutdown", "del", "exit")] + [["wait_all"], ["settle"], ["submit", 95, "probe"], ["wait", 95], ["shutdown", True, False]]
+    if rng.random() < 0.35:
+        # retry-on-failure: done-callbacks that submit again; when the pool breaks they run inside the manager thread
+        # while it is failing the pending futures
+        out, k = [], 0
+        for op in scn["users"]["u1"]:
+            out.append(op)
+            if op[0] == "submit" and op[1] < 90 and rng.random() < 0.6:
+                k += 1
+                out.append(["callback_submit", op[1], 20 + k])
+        scn["users"]["u1"] = out
     return scn
 
 
@@ -179,6 +189,21 @@ def fam_resize_wait(rng):
     return dict(exec=dict(kind="reusable", max_workers=n0, timeout=0.5), users={"u1": u1, "h": helper}, fam="resize_wait", single=True)
 
 
+def fam_resize_crash(rng):
+    """a resize requested while work is in flight on a machine with few CPUs (small call queue: some submitted tasks are
+    still pending in the parent, one of them cancelled) and a worker dies abruptly at some point, possibly during the wait"""
+    n0 = rng.choice([1, 2, 2])
+    n1 = rng.choice([x for x in (1, 2, 3) if x != n0])
+    nt = rng.randint(4, 7)
+    u1 = [["submit", 1, rng.choice(["long", "long", "ok"])]] + [["submit", i, "ok"] for i in range(2, nt + 1)]
+    if rng.random() < 0.7:
+        u1 += [["cancel", nt]]
+    u1 += [["reuse", n1, {}], ["submit", 40, "ok"], ["wait_all"], ["shutdown", True, False]]
+    helper = [["wait_label", "u1", "sleep"], ["sleep", 1.0], ["release", 1]]
+    return dict(exec=dict(kind="reusable", max_workers=n0, timeout=rng.choice([None, 0.5]), cpus=1), users={"u1": u1, "h": helper},
+                fam="resize_crash", single=True)
+
+
 def fam_resize_partial(rng):
     """some (not all) workers leave by idle timeout, then the pool is asked for exactly the number that is left, then more
     long tasks than that are submitted: no more than the requested number may run at once"""
@@ -230,6 +255,11 @@ def fam_kill(rng):
         u1.append(["submit", i + 1, rng.choice(["long", "long", "ok", "raise", "big", "hugearg"])])
     if u1[0][2] != "long" and rng.random() < 0.5:
         u1.append(["wait", 1])
+    r = rng.random()
+    if r < 0.25:
+        u1 += [["shutdown", False, False]]          # a graceful shutdown is already in progress when the forced one arrives
+    elif r < 0.35:
+        u1 += [["shutdown", False, True]]           # forced without waiting, then waited for
     u1 += [["shutdown", True, True], ["submit", 90, "ok"]]
     return dict(exec=dict(kind="plain", max_workers=maxw, timeout=rng.choice([None, 0.5])), users={"u1": u1}, fam="kill")
 
@@ -270,6 +300,25 @@ def fam_saturation(rng):
         u1.append(["release", i + 1])
     u1 += [["wait_all"], ["shutdown", True, False]]
     return dict(exec=dict(kind="plain", max_workers=maxw, timeout=tmo), users={"u1": u1}, fam="saturation")
+
+
+def fam_resize_saturation(rng):
+    """the reusable executor is created small, resized up (the call queue is the one built at creation), then given as
+    many long tasks as it has workers: all of them must run concurrently"""
+    m0 = rng.choice([1, 1, 2])
+    m1 = rng.choice([3, 4, 4, 5])
+    tmo = rng.choice([None, None, 0.5])
+    u1 = [["submit", 70, "ok"], ["wait", 70], ["reuse", m1, {}]]
+    if rng.random() < 0.3:
+        u1 += [["submit", 71, "ok"], ["wait", 71]]
+    n = m1 + rng.randint(0, 1)
+    for i in range(n):
+        u1.append(["submit", i + 1, "long"])
+    u1 += [["sat_probe", m1]]
+    for i in range(n):
+        u1.append(["release", i + 1])
+    u1 += [["wait_all"], ["shutdown", True, False]]
+    return dict(exec=dict(kind="reusable", max_workers=m0, timeout=tmo, cpus=rng.choice([None, None, 1, 2])), users={"u1": u1}, fam="resize_saturation")
 
 
 def fam_init(rng):
@@ -321,7 +370,7 @@ def fam_reusable(rng):
     return dict(exec=dict(kind="reusable", max_workers=m0, timeout=tmo), users=users, fam="reusable")
 
 
-FAMILIES = dict(trace=fam_trace, crash_shutdown=fam_crash_shutdown, callback=fam_callback, resize_partial=fam_resize_partial, resize_wait=fam_resize_wait, map=fam_map, reusable=fam_reusable, respawn_crash=fam_respawn_crash, mixed=fam_mixed, crash=fam_crash, kill=fam_kill, timeout=fam_timeout, saturation=fam_saturation, init=fam_init)
+FAMILIES = dict(resize_crash=fam_resize_crash, resize_saturation=fam_resize_saturation, trace=fam_trace, crash_shutdown=fam_crash_shutdown, callback=fam_callback, resize_partial=fam_resize_partial, resize_wait=fam_resize_wait, map=fam_map, reusable=fam_reusable, respawn_crash=fam_respawn_crash, mixed=fam_mixed, crash=fam_crash, kill=fam_kill, timeout=fam_timeout, saturation=fam_saturation, init=fam_init)
 
 
 def policies(rng, fam):
@@ -339,6 +388,8 @@ def policies(rng, fam):
             p["crash_at"] = [dict(label=rng.choice(["start", "init", "cq.rlock.acq", "cq.r.poll"]), nth=rng.randint(1, 4))]
     if fam == "trace" and rng.random() < 0.4:
         p["crash_at"] = [dict(label=rng.choice(WORKER_LABELS), nth=rng.randint(1, 4))]
+    if fam == "resize_crash":
+        p["pcrash"], p["max_crash"] = rng.choice([0.01, 0.03]), 1
     if fam == "crash_shutdown":
         p["kind"] = "prio"
         p["low"] = [rng.choice(["mgr", "mgr", "W", "u"])]
